@@ -68,6 +68,8 @@ class RequestChannelCommon(StreamHandler, Publisher, Subscription, Disposable, m
             else:
                 logger().warning('%s: Received request_n but no publisher provided', self.__class__.__name__)
 
+        elif self._received_complete and isinstance(frame, (PayloadFrame, ErrorFrame)):
+            pass  # the receiving direction already terminated (completed, failed or cancelled): signal nothing more
         elif isinstance(frame, PayloadFrame):
             if frame.flags_next:
                 self.remote_subscriber.on_next(payload_from_frame(frame),
